@@ -68,10 +68,10 @@ func openPty() (master, slave *os.File, err error) {
 }
 
 // RunUnder executes exe with the given sink.
-func RunUnder(exe string, sink Sink, dir string, timeout time.Duration) (*Exec, error) {
+func RunUnder(argv []string, sink Sink, dir string, timeout time.Duration) (*Exec, error) {
 	ctx, cancel := context.WithTimeout(context.Background(), timeout)
 	defer cancel()
-	cmd := exec.CommandContext(ctx, exe)
+	cmd := exec.CommandContext(ctx, argv[0], argv[1:]...)
 	cmd.Dir = dir
 	cmd.Env = append(os.Environ(), "LC_ALL=C")
 	res := &Exec{}
